@@ -111,7 +111,7 @@ def check_case(prop, sp, col, shard_name='corpus', max_paths=3000):
             if ext and not sp['conn']:
                 col.violation('admissible_branch_reported_infeasible', sp, {'path': path, 'admissible_extension':
                                                                             ext[0]['assign']}, flags)
-            elif prop == 'C06' and n_infeasible <= 40:
+            elif n_infeasible <= 40:
                 # infeasibility is sticky: taking further choices on an infeasible graph (what the fast encoder does
                 # while it looks for a neighbouring vector) never yields a graph that is reported feasible
                 r = D.descend_infeasible(b, g, gen.rng_for('c06descend', S.digest(sp), S.canon(path)))
@@ -119,7 +119,10 @@ def check_case(prop, sp, col, shard_name='corpus', max_paths=3000):
                 col.count('infeasible_descent_' + r[0])
                 if r[0] == 'became_feasible':
                     o2 = O.instance(r[2], b)
-                    col.violation('infeasible_graph_became_feasible', sp,
+                    # (C02 reads the same observation as: a feasible instance reached through a partial assignment that no
+                    # admissible architecture extends is not the closure of an admissible assignment)
+                    col.violation('infeasible_graph_became_feasible' if prop == 'C06' else
+                                  'feasible_instance_below_inadmissible_partial_assignment', sp,
                                   {'infeasible_after': path, 'then': r[1], 'nodes': o2['nodes'],
                                    'final': o2['final']}, flags)
             continue
